@@ -226,6 +226,18 @@ func (e *Engine) eval(ctx *EvalCtx, x *Expr) (Val, error) {
 			return Val{}, err
 		}
 		switch x.Name {
+		case "*":
+			if a.T != nil {
+				if p, ok := a.T.Underlying().(*types.Pointer); ok {
+					if pt, ok := e.ptrTerm(a); ok {
+						return Val{T: p.Elem(), S: fmt.Sprintf("(select %s %s)", e.getHeapP(ctx.st, e.sortOf(p.Elem())), pt)}, nil
+					}
+					if a.Loc != nil {
+						return Val{T: p.Elem(), S: e.load(ctx.st, a.Loc)}, nil
+					}
+				}
+			}
+			return Val{}, fmt.Errorf("cannot dereference %s", x.Args[0].String())
 		case "!":
 			return boolVal(sNot(a.S)), nil
 		case "-":
@@ -1219,6 +1231,34 @@ func (e *Engine) evalCall(ctx *EvalCtx, x *Expr) (Val, error) {
 			return boolVal(fmt.Sprintf("(= (iface.tag %s) %d)", v.S, e.typeTag(t))), nil
 		}
 		return Val{T: t, S: fmt.Sprintf("(%s %s)", unbox, v.S)}, nil
+	case "hasSuffix", "hasPrefix":
+		vs, err := args()
+		if err != nil {
+			return Val{}, err
+		}
+		if len(x.Args) == 2 && x.Args[1].Op == "lit" && x.Args[1].Kind == "string" {
+			return boolVal(litPrefix(e, vs[0].S, x.Args[1].Lit, name == "hasSuffix")), nil
+		}
+		if name == "hasSuffix" {
+			return boolVal(hasSuffixTerm(e, vs[0].S, vs[1].S)), nil
+		}
+		return boolVal(hasPrefixTerm(e, vs[0].S, vs[1].S)), nil
+	case "getenv":
+		vs, err := args()
+		if err != nil {
+			return Val{}, err
+		}
+		return Val{T: types.Typ[types.String], S: e.getenvTerm(vs[0].S)}, nil
+	case "atoiOK", "atoiVal":
+		vs, err := args()
+		if err != nil {
+			return Val{}, err
+		}
+		v, ok := e.atoiTerms(vs[0].S)
+		if name == "atoiOK" {
+			return boolVal(ok), nil
+		}
+		return Val{T: types.Typ[types.Int], S: v}, nil
 	case "utf8valid":
 		vs, err := args()
 		if err != nil {
